@@ -139,7 +139,35 @@ func H_C14_faults() {
 		cfg["l"] = []interface{}{validIn(), 5}
 		path = "l.1"
 	}
-	c, err := ucfg.NewFrom(cfg, opts...)
+	// how the configuration came to be: one nested input, the same settings spelled with dotted keys
+	// (objects and lists exist only as intermediate nodes of the keys), or a history of two merges in
+	// which the faulty list element is appended to a non-empty list
+	build := verif.Choice("build", 4)
+	var c *ucfg.Config
+	var err error
+	switch build {
+	case 0:
+		c, err = ucfg.NewFrom(cfg, opts...)
+	case 1:
+		flat := map[string]interface{}{}
+		c14Flatten(flat, "", cfg)
+		c, err = ucfg.NewFrom(flat, opts...)
+	case 2:
+		c, err = ucfg.NewFrom(map[string]interface{}{"l": []interface{}{validIn()}, "s": "old"}, opts...)
+		if err == nil {
+			err = c.Merge(cfg, opts...)
+		}
+	case 3:
+		c, err = ucfg.NewFrom(map[string]interface{}{"l": []interface{}{validIn()}, "s": "old"}, opts...)
+		if err == nil {
+			err = c.Merge(cfg, append(append([]ucfg.Option{}, opts...), ucfg.AppendValues)...)
+		}
+		if pos == 2 {
+			path = "l.2." + path[len("l.1."):]
+		} else if pos == 11 {
+			path = "l.2"
+		}
+	}
 	verif.Assert(err == nil, "C14/config accepted")
 	if err != nil {
 		return
@@ -158,10 +186,26 @@ func H_C14_faults() {
 	}
 	verif.Assert(ue.Reason() != nil && ue.Class() != nil, "C14/Reason and Class are set")
 	msg := err.Error()
-	verif.Assert(strings.Contains(msg, "'"+path+"'"), "C14/message names the full dotted path of the setting/position="+itoa(pos)+"/kind="+itoa(kind))
+	verif.Assert(strings.Contains(msg, "'"+path+"'"), "C14/message names the full dotted path of the setting/position="+itoa(pos)+"/kind="+itoa(kind)+"/build="+itoa(build))
 	if withMeta && pos != 10 {
 		// (position 10: the failing value is a default, it was not loaded from any source)
-		verif.Assert(strings.Contains(msg, "conf.d/test.yml"), "C14/message names the source/position="+itoa(pos))
+		verif.Assert(strings.Contains(msg, "conf.d/test.yml"), "C14/message names the source/position="+itoa(pos)+"/build="+itoa(build))
+	}
+}
+
+// c14Flatten spells every setting of v with one dotted key.
+func c14Flatten(out map[string]interface{}, prefix string, v interface{}) {
+	switch w := v.(type) {
+	case map[string]interface{}:
+		for k, e := range w {
+			c14Flatten(out, prefix+k+".", e)
+		}
+	case []interface{}:
+		for i, e := range w {
+			c14Flatten(out, prefix+itoa(i)+".", e)
+		}
+	default:
+		out[prefix[:len(prefix)-1]] = v
 	}
 }
 
